@@ -49,7 +49,9 @@ class FakeBytes:
         self.s = s
 
     def __bool__(self):
-        return len(self.s) > 0
+        if len(self.s) > 0:  # (a plain bool even when the length is symbolic)
+            return True
+        return False
 
     def __len__(self):
         return byte_len(self.s)
@@ -312,6 +314,9 @@ class SymFS:
     def exists(self, path):
         return path in self.files
 
+    def open_for_write(self, path):
+        return self.open(path, "w")
+
     def open(self, path, mode="r", buffering=-1, encoding=None, errors=None, newline=None, **kw):
         if not isinstance(path, str):
             raise SymFSError("only str paths are modelled")
@@ -377,6 +382,9 @@ class RealFS:
 
     def exists(self, path):
         return _os.path.exists(path)
+
+    def open_for_write(self, path):
+        return open(path, "w", encoding="utf-8")
 
     def install(self, module):
         pass
